@@ -10,3 +10,9 @@ open Martian.Props.C09
 #print axioms no_eligible_frame_stranded
 #print axioms facts_flow_constants
 #print axioms facts_credit_uses_frame_header_length
+#print axioms settings_last_wins
+#print axioms settings_applied_eq_receivers
+#print axioms initial_window_applied_once_with_last
+#print axioms settings_history_eq_receivers
+#print axioms facts_settings_read_modes
+#print axioms facts_window_update_creates_buffer
